@@ -18,6 +18,7 @@ template <int S> struct Runner {
   typedef typename Sp::MatrixType Mat;
   static const int M = 2 * S;
   Ctx &c; const std::string &unit;
+  Sp reused; bool toggle = false;  // long-lived object re-fitted with every problem of the unit through alternating overloads
   Runner(Ctx &c_, const std::string &u) : c(c_), unit(u) {}
   void fail(const std::string &what, const std::string &detail) {
     c.st.violate(unit, fmt("%s D=%d: %s: %s", order_name(S), D, what.c_str(), detail.c_str()), {{"order", order_name(S)}, {"what", what}});
@@ -57,6 +58,10 @@ template <int S> struct Runner {
     double res = mag > 0 ? (double)(fabsl((LD)got - E) / mag) : (got != 0 ? 1.0 : 0.0);
     ++c.st.comparisons; c.st.obs(fmt("public/%s", order_name(S)), res);
     if (res > THR) fail("energy-public", fmt("getEnergy %.17g exact integral %.17Lg res %.3g | %s", got, E, res, describe(p).c_str()));
+    { if (reused.isInitialized()) (void)reused.getEnergy();
+      if (toggle) reused.update(p.T, p.P, p.t0, p.bc); else { std::vector<double> tp = p.timepoints(); bool exact = true; for (int i = 0; i < p.N; ++i) exact = exact && (tp[i + 1] - tp[i] == p.T[i]); if (exact) reused.update(tp, p.P, p.bc); else reused.update(p.T, p.P, p.t0, p.bc); }
+      toggle = !toggle; double e1 = reused.getEnergy(), e2 = reused.getEnergy(); ++c.st.comparisons;
+      if (!bits_equal(e1, got) || !bits_equal(e2, got)) fail("energy-reused-object", fmt("a re-fitted object reports %.17g (then %.17g), a fresh one %.17g | %s", e1, e2, got, describe(p).c_str())); }
     if ((LD)got < -THR * mag) fail("energy-negative", fmt("getEnergy %.17g | %s", got, describe(p).c_str()));
     // sum over coordinates: energy of the D-dim spline = sum of the energies of the 1-D splines of its coordinates
     if (D > 1) {
@@ -83,10 +88,11 @@ template <int S> struct Runner {
 
 template <int S> static void explore(Ctx &c, long &id) {
   const bool th = c.args.thorough();
-  static const double Tvals[9] = {0.125, 0.25, 0.375, 0.5, 1.0, 2.0, 3.0, 4.0, 8.0};
+  // 9 values pin the polynomial in T; 4 extreme values (2^-40 .. 2^20) cover guards that would break polynomiality
+  static const double Tvals[13] = {0.125, 0.25, 0.375, 0.5, 1.0, 2.0, 3.0, 4.0, 8.0, 9.094947017729282e-13, 5.9604644775390625e-08, 0.0009765625, 1048576.0};
   const int M = 2 * S;
   // (a) injected coefficients
-  for (int nseg : {1, 3}) for (int j = 0; j < M; ++j) for (int k = j; k < M; ++k) for (int ti = 0; ti < 9; ++ti) {
+  for (int nseg : {1, 3}) for (int j = 0; j < M; ++j) for (int k = j; k < M; ++k) for (int ti = 0; ti < 13; ++ti) {
     long my = id++;
     if (!c.mine(my)) continue;
     std::string unit = str(my);
@@ -98,7 +104,7 @@ template <int S> static void explore(Ctx &c, long &id) {
     if (my % 331 == 0) c.st.sample(fmt("unit %ld: %s D=%d injected coefficients: %d segment(s), unit rows (%d,%d), T=%g -> getEnergy vs exact product integration", my, order_name(S), D, nseg, j, k, Tvals[ti]));
   }
   // (b) public route over the duration lattice, any scale
-  std::vector<double> sigmas = th ? std::vector<double>{0.015625, 0.125, 1.0, 8.0, 64.0} : std::vector<double>{0.125, 1.0, 8.0};
+  std::vector<double> sigmas = th ? std::vector<double>{9.313225746154785e-10, 9.5367431640625e-07, 0.015625, 0.125, 1.0, 8.0, 64.0, 1024.0} : std::vector<double>{9.313225746154785e-10, 9.5367431640625e-07, 0.125, 1.0, 8.0, 1024.0};
   const int Nmax3 = th ? 7 : 4;
   for (int N = 1; N <= (th ? 10 : 6); ++N) {
     int base = N <= Nmax3 ? 3 : 2;
